@@ -1,7 +1,7 @@
 SPECIFICATION TSpec
 CONSTANTS
   Retries = 10
-  StrictLineCount = FALSE
+  StrictLineCount = TRUE
   AtomicDecompress = FALSE
   AtomicVerifiedTable = FALSE
   DropTableOnRewrite = FALSE
